@@ -60,6 +60,8 @@ def build(case, rng=None):
     if "alignment" not in m.aux_data and case.get("alignment_table", True):
         m.aux_data["alignment"] = gtirb.AuxData(
             type_name="mapping<UUID,uint64_t>", data=dict())
+    if not case.get("alignment_table", True):
+        m.aux_data.pop("alignment", None)
     m.aux_data["types"] = gtirb.AuxData(
         type_name="mapping<UUID,string>", data=dict())
     m.aux_data["profile"] = gtirb.AuxData(
